@@ -42,6 +42,13 @@ CLAIMED = {
          'TestExecutor.wait / __init__ / close, duplicate-name checks, console output and profiling are used by (trusted) contract; "a finished executor thread '
          'has finalized its record" links to the C01 contracts of the executor and is assumed here; test_start given as a lambda is outside the subset; '
          'record-completeness clauses (every phase record has outcome / options / start <= end) are C05 / C01 matters'),
+ 'C10': ('TestRecord.as_base_types renders every record list (phases, subtests, branches, checkpoints, diagnoses, log records) from its cache; every add_*_record '
+         'appends to the list and to its cache in lockstep, the cache entry being the rendering of the new record; MeasuredValue caches the rendering of the '
+         'recorded post-transform value; convert_to_base_types on scalars passes None / bool / int / str / finite floats through and never returns a non-finite '
+         'float when json_safe (strict JSON)',
+         'container / attrs / namedtuple recursion of convert_to_base_types is used as a pure function only; the dimensioned-measurement cache, PhaseState._cached / '
+         '_update_measurements (functools.partial closures) and json.dumps are outside the subset: two of the three seeded changes for this property are in '
+         'those parts and are not detected'),
  'C13': ('header = six little-endian words (command, arg0, arg1, length, byte sum, command xor 0xFFFFFFFF), receipt validation '
          '(short/empty header, unknown command, length or checksum mismatch are rejected), payload-after-header on every exit, '
          'every transport write/read inside one critical section of the writer/reader lock',
